@@ -276,7 +276,13 @@ func (c *cluster) generate(rt *rapid.T, p *profile, spec *checkSpec) {
 			unseeded = append(unseeded, uint64(n-i))
 		}
 	}
-	c.step(vAct{A: "init", K: n, L: extras, U: unseeded, T: c.seed, B: rapid.IntRange(0, 4).Draw(rt, "noShutdownOnRemove") == 0})
+	ini := vAct{A: "init", K: n, L: extras, U: unseeded, T: c.seed, B: rapid.IntRange(0, 4).Draw(rt, "noShutdownOnRemove") == 0}
+	if p.autoSnap > 0 && rapid.IntRange(0, 99).Draw(rt, "autoSnap") < p.autoSnap {
+		// the nodes take snapshots on their own timers (interval staggered 1x-2x by the library)
+		ini.D = rapid.SampledFrom([]int{1500, 3000, 8000}).Draw(rt, "snapInterval")
+		ini.C = rapid.SampledFrom([]int{0, 1, 5, 20}).Draw(rt, "snapThreshold")
+	}
+	c.step(ini)
 	if len(unseeded) > 0 {
 		// the operator bootstraps them while the others are already campaigning
 		c.step(vAct{A: "gate"})
